@@ -11,6 +11,7 @@
 -/
 import Proofs.SysEventsC12
 import Proofs.SysEventsC12b
+import Proofs.SysEventsMore
 namespace Hap.Sys
 
 /-- **C12_recipients** (safety, every history, every next step). Whenever a step writes an EVENT
@@ -69,6 +70,21 @@ theorem C12_immediate (c : Cfg) (tr : List Ev) (p : ObjId) (x : Cid) (v : Val) :
     aget (s.obj p).queue x = some v → c.imm x = true → 0 < (s.obj p).soon := by
   intro s h hi
   exact (invQ_run c tr _ (invQ_init c) p).imm x (by rw [h]; rfl) hi
+
+/-- **C12_every_subscriber_served** (the "reach" direction: nobody who is owed the change is left
+    out). After every history, when the application changes the value of `x` to `v`
+    (`char.set_value(v)`, value really changes), every registered connection whose address is subscribed
+    to `x` afterwards has `(x, v)` queued and a flush pending (the coalescing timer, or a `call_soon`
+    callback for button types), and is under the quiescence obligation (`since`). With
+    `C12_recipients` (only verified, subscribed, non-originating connections are written to) this is
+    "exactly the subscribed other controllers". -/
+theorem C12_every_subscriber_served (c : Cfg) (hc : c.fix13 = true) (tr : List Ev) (x : Cid) (v : Val) :
+    let s := (run c (init c) tr).1
+    let s' := (step c s (Ev.appSet x v)).1
+    s.value x ≠ some v → ∀ q, registered s' q → subscribed s' x (s'.obj q).addr →
+      aget (s'.obj q).queue x = some v ∧ pendingFlush s' q ∧ (s'.obj q).since x = true := by
+  intro s s' hch q hr hsub
+  exact appSet_serves_all c s x v (invA_run c hc tr _ (invA_init c)) hch q hr hsub
 
 /-- "activity has stopped" on the loop: no coalescing timer and no `call_soon` flush is pending on
     any connection -/
@@ -335,6 +351,16 @@ example :
     let r := run exCfg12 (init exCfg12) staleTrace
     r.2 = [Out.resp 0 0 204 Body.none, Out.resp 0 0 204 Body.none] ∧
     ¬ pendingFlush r.1 0 ∧ (r.1.obj 0).since 0 = true ∧ (r.1.obj 0).learned 0 = some 20 ∧ r.1.value 0 = some 20 := by
+  decide
+
+instance (s : St) (x : Cid) (a : Addr) : Decidable (subscribed s x a) := by unfold subscribed; infer_instance
+
+/-- non-vacuity of `C12_every_subscriber_served`: two registered subscribers, the value changes -/
+example :
+    let s := (run exCfg12 (init exCfg12)
+      [Ev.connect 0, Ev.verify 0, Ev.connect 1, Ev.verify 1, Ev.data 0 (Req.put 0 (some true) none false),
+       Ev.data 1 (Req.put 0 (some true) none false)]).1
+    s.value 0 ≠ some 9 ∧ registered s 0 ∧ registered s 1 ∧ subscribed s 0 (s.obj 0).addr ∧ subscribed s 0 (s.obj 1).addr := by
   decide
 
 /-- an EVENT message is really produced (two subscribers, one writes, the other is told) -/
